@@ -655,6 +655,9 @@ def _run_parts(case, w, ref, folder, process, V, probes, w_full=None):
         for o, (shape, sel) in exp.items():
             if o not in masks:
                 continue
+            if tuple(np.shape(masks[o])) != tuple(shape):
+                V("parts", "store-has-another-shape", {"part": part, "output": o, "store": list(np.shape(masks[o])), "workload": list(shape)})
+                return
             got = {tuple(int(x) for x in e) for e in np.ndindex(*shape) if not masks[o][e]}
             if got != sel:
                 V("parts", "stored-elements-differ-from-selection", {"part": part, "output": o, "present": sorted(got)[:10],
@@ -754,6 +757,9 @@ def _reuse_requests(case, w, requests, folder2, process, V, probes, storage, cfg
         for o, (shape, sel) in _masks_expected(w2, done).items():
             if o not in masks:
                 continue
+            if tuple(np.shape(masks[o])) != tuple(shape):
+                V("parts", "store-has-another-shape", {"part": part, "output": o, "store": list(np.shape(masks[o])), "workload": list(shape)})
+                return
             got = {tuple(int(x) for x in e) for e in np.ndindex(*shape) if not masks[o][e]}
             if got != sel:
                 V("parts", "reused-request-selects-other-elements", {"part": part, "output": o, "present": sorted(got)[:10],
